@@ -659,4 +659,24 @@ def R7_sink_format(ctx):
     ctx.check(dl is not None and dl[0] == "call" and dl[1].endswith("ResponseOutputFormat::delimiter") and dl[2][0] == FMT, "delimiter-of-configured-format", "the row delimiter is not the configured format's own", b.where(), detail="format.delimiter()")
 
 
-RULES = [R1_who_may_write, R2_locked_row, R3_every_response_once, R4_header, R5_no_response_edits, R6_lock_order, R7_sink_format]
+def R8_json_row_is_the_serialisation(ctx):
+    """C19.R8 a JSON record parses back to the response that was produced: the row is serde_json's own text of the response, unedited"""
+    F = ctx.F
+    ctx.rule("C19.R8", "response_output_format_json::format_response returns serde_json::to_string(response) (newline-delimited) / to_string_pretty(response) as it is: no edit of the serialised text (a `replace`, `trim`, re-escaping) — the text is only guaranteed to parse back when it is exactly what the serialiser wrote", floor=2)
+    b = F.need("routee_compass::app::compass::response::response_output_format_json::format_response")
+    want = {"serde_json::to_string", "serde_json::to_string_pretty", "serde_json::ser::to_string", "serde_json::ser::to_string_pretty"}
+    n = 0
+    for r in table(b):
+        if r.end != "return":
+            continue
+        v = ok_value(r)
+        if v is None:
+            continue
+        n += 1
+        v = nosite(deep_strip(v))
+        ok = v[0] == "call" and v[1].split("{")[0] in want and len(v[2]) == 1 and clean(v[2][0]) == ("arg", 1)
+        ctx.check(ok, "json:row=serialisation:%s" % ("ndjson" if any(l != 0 for d, l in r.bools) else "pretty"), "the JSON row is not the serialiser's text of the response as it is: %s" % short(v)[:140], b.where(), detail=short(v)[:80])
+    ctx.check(n >= 2, "json:both-branches", "expected an Ok row for the newline-delimited and the pretty branch (found %d)" % n, b.where())
+
+
+RULES = [R1_who_may_write, R2_locked_row, R3_every_response_once, R4_header, R5_no_response_edits, R6_lock_order, R7_sink_format, R8_json_row_is_the_serialisation]
